@@ -60,6 +60,7 @@ def sec_bytes(kind, body, n, src):
 
 def run_task(task):
     label, ov, src, secs, arity, deadline = task
+    same_names = label.endswith("/same-file")
     args = build_args(base_opts(ov))
     drv = explore.get_driver()
     try:
@@ -73,7 +74,7 @@ def run_task(task):
     for pos in range(arity):
         for kind, body in secs:
             keys.append((pos, kind, body))
-            inputs.append(sec_bytes(kind, body, pos, src))
+            inputs.append(sec_bytes(kind, body, 0 if same_names else pos, src))
     res = drv.render(cid, inputs, trace=True, trace_from=0)
     snaps = set()
     for k, r in zip(keys, res):
@@ -91,7 +92,8 @@ def run_task(task):
             return {"label": label, "capped": True, "n": n, "snaps": snaps, "violations": [],
                     "args": args, "sample": sample, "distinct": 0}
         chunk = combos[i:i + 128]
-        ins = [b"".join(sec_bytes(k, b, pos, src) for pos, (k, b) in enumerate(c)) for c in chunk]
+        ins = [b"".join(sec_bytes(k, b, 0 if same_names else pos, src) for pos, (k, b) in enumerate(c))
+               for c in chunk]
         r1 = drv.render(cid, ins)
         r2 = drv.render(cid, ins)
         for c, inp, a, b in zip(chunk, ins, r1, r2):
@@ -162,7 +164,8 @@ def seed_runs(cases, K):
 ASSUMPTIONS = [
     "sections: 12 kinds x 5 hunk endings (producers.py), git and `diff -ru` sources; a section is "
     "complete (input may not end or be cut inside a section)",
-    "sections in one input use distinct file names (position-specific), as in real diffs",
+    "sections in one input use distinct file names (position-specific), as in real diffs; a second family "
+    "uses the same file name in consecutive sections (as `git log -p` does across commits)",
     "hash seeds: K controlled seeds of the std RandomState through an LD_PRELOAD getrandom shim, "
     "not all 2^128",
 ]
@@ -190,6 +193,8 @@ def main(tier):
                               sections_for("git", K, ["minus"]), 3))
         if k <= 1:
             tasks.append((label, ov, "diffu", du_secs, 2 if tier == "quick" else 3))
+            # the same file in consecutive sections (as in `git log -p` over several commits)
+            tasks.append((label + "/same-file", ov, "git", small if tier == "quick" else git_secs, 2))
     cap = 45 if tier == "quick" else 900
     deadline = t0 + cap
     results = explore.pmap(run_task, [t + (deadline,) for t in tasks])
